@@ -1,5 +1,7 @@
 import FitProps.C17Defs
 import FitModel.Generated.GenDigest
+import FitProps.C17RuleLemmas
+import FitProps.C17BytesLemmas
 import FitProps.C17MesgLemmas
 import FitProps.C17TypesLemmas
 import FitProps.C17StrLemmas
@@ -13,13 +15,17 @@ import FitProps.C17NodupLemmas
 The property quantifies over finite artefacts. Every clause is a decidable statement over data that is
 **regenerated from /repo on every run** and is checked here by the kernel (`decide +kernel`):
 
-* `Fit.Gen.Digest` — the repository's own generator re-run into a scratch directory: sha256 of each of its
-  output files beside the sha256 of the checked-in file (`translators/gendigest.py`);
+* `Fit.Gen.Digest` — the repository's own generator re-run into a scratch directory: sha256 of each file it WROTE
+  (`translators/gendigest.py`, python hashlib; it never opens a checked-in `*_gen.go`);
+* `Fit.Gen.Tree` — every checked-in `*_gen.go` of the WHOLE tree (everything but `.git`): path, sha256, and the program
+  its first line names (`translators/treedigest.sh`, find + sha256sum; it runs nothing). A separate step of the check,
+  logged on its own; the two tables meet only in `C17_bytes`;
 * `Fit.Gen.Xlsx` — an independent reading of `Profile.xlsx` (`translators/xlsx.py`, python stdlib; reading
-  rules R0–R6 in its header: types and constants; message → fields → sub-fields; scale/offset = first entry,
+  rules R0–R7 in its header: types and constants; message → fields → sub-fields; scale/offset = first entry,
   1/0 when the row lists several components; component i takes the i-th entries; a field accumulates when its
   row says so or a component of a main field of the message refers to it with accumulate set; reference
-  names/values resolved through the message and the Types sheet; array ⇔ Array cell non-empty);
+  names/values resolved through the message and the Types sheet; array ⇔ Array cell non-empty; R7: a row of the
+  Types sheet commented "deprecated" whose value another row of the same type carries is an alias, not a constant);
 * `Fit.Gen.Prof` — a dump of the compiled packages: `factory.StandardFactory().CreateMesg(n)` for every n,
   `profile.ListProfileType()`, every `typedef.ListXxx()` with `String()` / `XxxFromString` applied to each
   element (`fitharness regen profiletables`). The family `profilerows` ties this dump to the live factory.
@@ -33,22 +39,72 @@ Normalisations the comparison applies — all of them explicit below, nothing el
   `C17_types_eq_xlsx_full`) is false on the pinned tree (known finding KF-C17-1, intentional); what is proved is
   equality **after rewriting exactly those three identifiers**, so any other difference — or a fourth
   rewritten name — breaks the theorem;
-* `TypeRow.dedupe`: among rows of one type with the same value, those commented "deprecated" are not generated
-  (a Go switch cannot list a value twice).
+* **R7** (`TypeRow.dedupe`, a READING RULE, not a finding): among rows of one type of the Types sheet with the same value,
+  those commented "deprecated" are aliases of the surviving row and are not constants of the generated type. Reason: the
+  property demands that constants round-trip through their string forms and are listed once; `String()`, `List…()` and a
+  `switch` are functions of the value, so two rows of one value cannot both be constants, and the spreadsheet itself
+  says which one is the alias ("Deprecated use hourly_forecast"). The rule is evaluated on the spreadsheet alone and is
+  pinned: `C17_dedupe_exact` — on the current spreadsheet it drops EXACTLY the one row `weather_report.forecast = 1`
+  (3658 rows → 3657 constants), `C17_dedupe_no_value_lost` — no value of any type is lost by it, and
+  `C17_types_without_R7_false` — without the rule the statement is false. So a second dropped row, or the generator
+  dropping a row for any other reason, breaks a theorem. Consequence to know: the identifier `WeatherReportForecast`
+  does not exist and `WeatherReportFromString("forecast")` is `WeatherReportInvalid`.
+
+Which clauses are **execution checks** rather than statements about a model of a program: "byte for byte" (`C17_bytes`: the
+generator is RUN, not modelled — translation validation by execution; the kernel checks that two independently produced
+digest tables agree) and "constants round-trip through their string forms" (`C17_string_roundtrip`: the compiled
+`String()` / `XxxFromString` are CALLED on every listed constant by the harness and the table of results is checked).
+Everything else compares regenerated tables of the compiled packages with the independent reading of the spreadsheet.
 -/
 namespace Fit.C17
 open Fit.ProfileSpec Fit.Gen
 
 /-! ## byte for byte -/
 
-/-- **Byte for byte.** The generator ran; every file it emits has the same sha256 as the checked-in file of the
-same path; it emits something; and no checked-in `*_gen.go` under profile/ is left over from an older
-generation. (A hand edit of a generated file, a template or builder change without regeneration, or a changed
-Profile.xlsx makes one digest pair differ; the check names the file and prints the diff.) -/
+/-- **Byte for byte — translation validation by execution.** The generator program is not modelled: on every run the
+check RUNS it (`go run main.go -f Profile.xlsx -p <scratch> -b all --profile-version <v> -y`) and hashes what it wrote
+(`Fit.Gen.Digest`, step `gendigest`), and — separately, with another tool — hashes every `*_gen.go` of the whole tree
+(`Fit.Gen.Tree`, step `treedigest`). What the kernel checks is that these two independently produced tables agree:
+
+* the generator ran and emitted something;
+* every file it emitted is in the tree under the same path with the same sha256 (so: byte for byte, up to a sha256
+  collision), the digest is that of a readable file, and the checked-in file's first line names the generator;
+* every `*_gen.go` of the tree — anywhere, not only under profile/ — is emitted by the generator, or is one of the two files
+  `otherGenerators` names (`cmd/fitprint/printer/typedef_gen.go`, `cmd/fitconv/fitcsv/lookup_gen.go`) and its first line
+  names the other `go generate` program listed there. So a left-over `*_gen.go` anywhere in the tree breaks the theorem;
+* no path occurs twice in the tree table (so "the" checked-in file of a path is one file).
+
+(A hand edit of a generated file, a template or builder change without regeneration, or a changed Profile.xlsx makes one
+digest differ; the check names the file and prints the diff.) -/
 theorem C17_bytes :
-    Digest.generatorRan = true ∧ Digest.files ≠ [] ∧ (∀ f ∈ Digest.files, f.regen = f.tree ∧ f.tree ≠ 0) ∧
-    Digest.extra = [] := by
-  decide +kernel
+    Digest.generatorRan = true ∧ Digest.files ≠ [] ∧
+    (∀ g ∈ Digest.files, g.sha ≠ 0 ∧ ∃ t ∈ Tree.files, t.path = g.path ∧ t.sha = g.sha ∧ t.generator = fitgenProgram) ∧
+    (∀ t ∈ Tree.files, (∃ g ∈ Digest.files, g.path = t.path) ∨ (t.path, t.generator) ∈ otherGenerators) ∧
+    (Tree.files.map (·.path)).Nodup :=
+  ⟨Lemmas.bytes_tables.1, Lemmas.bytes_tables.2.1,
+   (filesMatch_sound _ _ _ _ Lemmas.bytes_tables.2.2.1).1, (filesMatch_sound _ _ _ _ Lemmas.bytes_tables.2.2.1).2,
+   nodupNat_sound _ Lemmas.bytes_tables.2.2.2⟩
+
+/-- the Boolean form the kernel evaluates (one linear pass over the two sorted tables); `C17_bytes` is what it means -/
+theorem C17_bytes_tables :
+    Digest.generatorRan = true ∧ Digest.files ≠ [] ∧
+    filesMatch otherGenerators fitgenProgram Tree.files Digest.files = true ∧
+    nodupNat (Tree.files.map (·.path)) = true :=
+  Lemmas.bytes_tables
+
+/-- what `filesMatch` means, for ALL tables (not an evaluation): used above -/
+theorem C17_filesMatch_sound (others : List (Nat × Nat)) (prog : Nat) (tree : List TreeFile) (gen : List GenFile)
+    (h : filesMatch others prog tree gen = true) :
+    (∀ g ∈ gen, g.sha ≠ 0 ∧ ∃ t ∈ tree, t.path = g.path ∧ t.sha = g.sha ∧ t.generator = prog) ∧
+    (∀ t ∈ tree, (∃ g ∈ gen, g.path = t.path) ∨ (t.path, t.generator) ∈ others) :=
+  filesMatch_sound others prog tree gen h
+
+/-- non-vacuity of `C17_filesMatch_sound`: a tree with one emitted file and one left-over file does NOT match, the same
+tree with the left-over file listed does -/
+example :
+    filesMatch [] 7 [⟨0x161, 5, 7⟩, ⟨0x162, 6, 7⟩] [⟨0x161, 5⟩] = false ∧
+    filesMatch [(0x162, 9)] 7 [⟨0x161, 5, 7⟩, ⟨0x162, 6, 9⟩] [⟨0x161, 5⟩] = true ∧
+    filesMatch [(0x162, 9)] 7 [⟨0x161, 4, 7⟩, ⟨0x162, 6, 9⟩] [⟨0x161, 5⟩] = false := by decide
 
 /-! ## entry by entry -/
 
@@ -73,12 +129,65 @@ theorem C17_KF1_witness : ¬ C17_factory_eq_xlsx_full :=
   Lemmas.KF1_witness
 
 /-- **Entry by entry (types).** Every profile type: name, base type, and every constant (value and string
-form, in order) of the compiled `ListXxx()` is the spreadsheet's, after `f14` and the deprecated-duplicate rule. -/
+form, in order) of the compiled `ListXxx()` is the spreadsheet's, after `f14` and under reading rule R7 (deprecated alias
+rows are not constants — pinned by the three theorems below). -/
 theorem C17_types_eq_xlsx_partial : Prof.types = Xlsx.types.map (fun t => (t.dedupe).fix f14) :=
   Lemmas.types_eq_xlsx_partial
 
 theorem C17_KF1_witness_types : ¬ C17_types_eq_xlsx_full :=
   Lemmas.KF1_witness_types
+
+/-- **R7 drops exactly one row today.** The rows of the Types sheet that reading rule R7 drops (commented "deprecated",
+value carried by another row of the same type) are exactly `r7Dropped` = [`weather_report.forecast = 1`]. A second
+deprecated alias in the spreadsheet changes this list and breaks this theorem; the generator dropping any row that is not
+in this list breaks `C17_types_eq_xlsx_partial`. -/
+theorem C17_dedupe_exact : Xlsx.types.flatMap TypeRow.droppedRows = r7Dropped :=
+  Lemmas.dedupe_exact
+
+/-- **The types, with every exception named.** Applying the rule and removing exactly the listed row(s) is the same thing on
+the current spreadsheet; hence the compiled types are the spreadsheet's rows minus exactly `r7Dropped` (one row, by type,
+name and value), with exactly the three names of `f14` rewritten — a statement in which neither the `deprecated` mark nor
+the rule occurs. The `--spec` oracle of the family `profilerows` is this right-hand side (before `f14`). -/
+theorem C17_types_eq_xlsx_listed :
+    Xlsx.types.map TypeRow.dedupe = Xlsx.types.map (TypeRow.dropListed r7Dropped) ∧
+    Prof.types = Xlsx.types.map (fun t => (t.dropListed r7Dropped).fix f14) := by
+  refine ⟨Lemmas.dedupe_eq_listed, ?_⟩
+  have h := congrArg (List.map (TypeRow.fix f14)) Lemmas.dedupe_eq_listed
+  simp only [List.map_map] at h
+  exact Lemmas.types_eq_xlsx_partial.trans h
+
+/-- **R7 loses no value.** Every row R7 drops has a surviving alias in the same type — same value, another name, not
+deprecated (for `forecast`: `hourly_forecast = 1`) — hence every value of every spreadsheet type is the value of a
+constant of the type as generated. (The second half is proved from the first for all types, `TypeRow.dedupe_no_value_lost`;
+only the first is an evaluation.) -/
+theorem C17_dedupe_no_value_lost :
+    (∀ t ∈ Xlsx.types, ∀ c ∈ t.consts, t.drops c = true →
+       ∃ k ∈ t.consts, k.value = c.value ∧ k.dep = false ∧ k.name ≠ c.name) ∧
+    (∀ t ∈ Xlsx.types, ∀ c ∈ t.consts, ∃ k ∈ t.dedupe.consts, k.value = c.value) :=
+  ⟨fun t ht => t.aliasesSurvive_sound (Lemmas.dedupe_aliases_survive t ht),
+   fun t ht => t.dedupe_no_value_lost (Lemmas.dedupe_aliases_survive t ht)⟩
+
+/-- what R7 keeps, for ALL types (not an evaluation): a row is a constant of the de-duplicated type iff R7 does not drop
+it, and a row that is not marked deprecated is never dropped -/
+theorem C17_dedupe_keeps (t : TypeRow) :
+    (∀ c ∈ t.consts, c.dep = false → t.drops c = false) ∧
+    (∀ c ∈ t.consts, t.drops c = false → { c with dep := false } ∈ t.dedupe.consts) ∧
+    (∀ k ∈ t.dedupe.consts, ∃ c ∈ t.consts, t.drops c = false ∧ k = { c with dep := false }) :=
+  ⟨fun c _ h => t.drops_of_not_dep c h, t.mem_dedupe, t.of_mem_dedupe⟩
+
+/-- **Without R7 the statement is false** (so the rule is a real part of the reading, said here and in the texts): the
+compiled types are NOT the spreadsheet's rows taken one constant per row (even after `f14`) — the spreadsheet has exactly
+`r7Dropped.length` = 1 more row than the compiled lists have constants. -/
+theorem C17_types_without_R7_false :
+    ¬ (Prof.types = Xlsx.types.map (fun t => (t.plain).fix f14)) ∧
+    (Xlsx.types.map (·.consts.length)).sum = (Prof.types.map (·.consts.length)).sum + r7Dropped.length := by
+  refine ⟨fun h => ?_, Lemmas.types_row_count⟩
+  have h2 : Prof.types.map (·.consts.length) = Xlsx.types.map (·.consts.length) := by
+    rw [h, List.map_map]
+    exact List.map_congr_left fun t _ => TypeRow.plain_fix_length f14 t
+  have h3 := Lemmas.types_row_count
+  rw [h2] at h3
+  simp [r7Dropped] at h3
 
 /-- **Entry by entry (typed messages).** Every message of the spreadsheet has a typed struct in profile/mesgdef and vice
 versa; the struct (as reflection and probing of the compiled code show it, `Generated/Mesgdef.lean`) has exactly one slot
@@ -99,7 +208,12 @@ theorem C17_refs_resolve : ∀ m ∈ Prof.mesgs, m.numsOk = true ∧ m.refsResol
 
 /-- **Bit widths fit.** Every component takes 1..32 bits and the components of a field (and of each of its
 sub-fields) together fit the containing field: `8 × size(base type)` bits, times the declared length for a
-fixed array (from the spreadsheet's Array cell), the 255-byte protocol maximum for an `[N]` array. -/
+fixed array (from the spreadsheet's Array cell), the 255-byte protocol maximum for an `[N]` array.
+Strength, said plainly: for a NON-array field and for a fixed `[n]` array the bound is the real capacity and the clause has
+teeth (seeded: 12 → 13 bits in record.compressed_speed_distance breaks it). For a variable-length `[N]` array the profile
+declares no length, so the only bound that holds for every message on the wire is the protocol's 255 bytes (2040 bits for a
+byte array): there the sum test is close to vacuous (Σ bits of a row is at most a few hundred) and what the clause still
+says is "every component takes 1..32 bits". The per-row widths themselves are pinned by `C17_factory_eq_xlsx_partial`. -/
 theorem C17_bitwidth_fit : ∀ m ∈ Prof.mesgs, m.bitsFit btSize Xlsx.fixedLens = true :=
   Lemmas.bitwidth_fit
 
